@@ -394,6 +394,11 @@ def run(ctx):
     for c in res_x.cases:
         c["slice"] = "excess"
     groups = groups + _groups(res_x.cases)
+    # zero slice (kb, prod, r, fr, fp exactly 0): always in full
+    res_z = ctx.tlc("Integrated_MC", "Integrated_MC_zero.cfg", require_cases=50, timeout=600)
+    for c in res_z.cases:
+        c["slice"] = "zero"
+    groups = groups + _groups(res_z.cases)
     ctx.exhaustive = not ctx.quick
     outs = ctx.pmap(_work, groups)
     for g, (bad, ref) in zip(groups, outs):
